@@ -106,6 +106,8 @@ def finalize(agg, tier):
         need("forged_em:" + s)
         need("structured_done:" + s)
     for s in ("ed25519", "ed25519ctx", "ed25519ph", "ed448", "ed448ph"):
+        need("A-mixed-order:%s:both-equations-hold" % s)
+        need("A-mixed-order:%s:cofactored-only" % s)
         need("forged:" + s)
         need("structured_done:" + s)
     for n in ("odd_size_keys", "keys_bits_1_mod_8", "pss_em_longer_than_emLen_built", "refused:pss-salt-too-long",
